@@ -72,6 +72,9 @@ func c10SchedExec(seq []string, prefix []int) SchedResult {
 func c10RaceRun(c *Ctx) {
 	shapes := []string{"small", "body", "overdeclared", "cut-body", "large"}
 	bound := 2
+	if c.Thorough() {
+		bound = 3
+	}
 	var seqs [][]string
 	for _, a := range shapes {
 		for _, b := range shapes {
